@@ -2,6 +2,7 @@
 import re
 from . import suite, execsuite, gen_prog
 from .propbase import *
+from . import basesuites
 
 CONSTS = ["0", "1", "5", "10", "100", "2.5", "0.125", "3.14159", "1000000", "1e21", "123456789.125", "-5", "-0", "0 times -3", "0 over -4", "1 over 0",
           "-1 over 0", "0 over 0", "1 plus 2", "2 times 3, 4", "10 without 1, 2", "100 minus 10, 20, 30", "100 over 5, 2", "1 over 3", "0.1 plus 0.2",
@@ -29,6 +30,7 @@ def programs():
 
 def run(chk):
     proved = setup(chk, "C18")
+    basesuites.run_f64(chk, 1500 if chk.tier == "quick" else 20000)
     rng = rng_for(chk, 18)
     quick = chk.tier == "quick"
     progs = programs()
